@@ -4,7 +4,8 @@ from . import rx
 from .rx import RxError, CharSet
 from .flow import show
 from .source import AnalysisError
-from .fold import Unfoldable
+from .fold import Unfoldable, Rx
+import os
 from . import match as M
 
 SIR = "netconan.sensitive_item_removal"
@@ -24,67 +25,58 @@ class Pat:
         return self.text if len(self.text) <= 70 else self.text[:67] + "..."
 
 
+def _zero_width(tree):
+    from .secret_struct import _is_zero_width
+    return _is_zero_width(tree)
+
+
 def load(ctx, rep, cl):
-    """Return (prefix_text, [[Pat]]) or raise AnalysisError."""
+    """Return (prefix_text, [[Pat]]).  The table is obtained by compile-time evaluation (constant folding)
+    of generate_default_sensitive_item_regexes(): whatever way the function assembles it (comprehension,
+    loops, helper functions, lists imported from another module), the folded value is what is analysed."""
     p, A, folder = ctx.p, ctx.A, ctx.folder
     f = p.find_function("generate_default_sensitive_item_regexes")
     rep.analysed(f)
-    fp = A.paths(f)
-    if len(fp.paths) != 1 or fp.paths[0].kind != "return":
-        raise AnalysisError("generate_default_sensitive_item_regexes: unrecognised control flow")
-    r = fp.paths[0].returned()
-    # expected: [[(re.compile(PREFIX + regex_), num) for regex_, num in group] for group in COMBINED]
-    ok = r[0] == "comp" and r[1] == "list" and len(r[4]) == 1
-    combined = prefix_term = None
-    if ok:
-        gvar, combined, gconds = r[4][0]
-        inner = r[3]
-        ok = not gconds and inner[0] == "comp" and inner[1] == "list" and len(inner[4]) == 1 and inner[4][0][1] == gvar and not inner[4][0][2]
-        if ok:
-            tvar = inner[4][0][0]
-            elt = inner[3]
-            rx_v, num_v = ("sub", tvar, ("const", 0)), ("sub", tvar, ("const", 1))
-            ok = elt[0] == "tuple" and len(elt[1]) == 2 and elt[1][1] == num_v and M.is_call(elt[1][0]) and M.callee_name(elt[1][0]) == "compile" and len(elt[1][0][2]) == 1 and not elt[1][0][3]
-            if ok:
-                arg = elt[1][0][2][0]
-                ok = arg[0] == "binop" and arg[1] == "+" and arg[3] == rx_v
-                prefix_term = arg[2] if ok else None
-    rep.ob(cl + ".table-construction", f.name, ok,
-           "pattern table is built as %s; expected [[(re.compile(PREFIX + regex), index) for regex, index in group] for group in <concatenated lists>] with no flags" % show(r)[:300],
-           "%s:%d" % (f.module.relpath, f.node.lineno), key=cl + ".table-construction|" + f.name)
+    loc = "%s:%d" % (f.module.relpath, f.node.lineno)
+    try:
+        table = folder.call_function(f, [], {})
+    except Unfoldable as e:
+        raise AnalysisError("pattern table does not fold: %s" % e)
+    ok = isinstance(table, list) and table and all(isinstance(g, list) and g and all(isinstance(t, tuple) and len(t) == 2 and isinstance(t[0], Rx) and (t[1] is None or isinstance(t[1], int)) for t in g) for g in table)
+    rep.ob(cl + ".table-construction", f.name, ok, "the pattern table folds to a non-empty list of groups of (compiled pattern, group index or None) entries (%s groups)" % (len(table) if isinstance(table, list) else "?"), loc, key=cl + ".table-construction|" + f.name)
     if not ok:
-        raise AnalysisError("pattern table construction not recognised; cannot enumerate patterns")
-    # prefix
-    if prefix_term[0] != "global":
-        raise AnalysisError("allowed-prefix is not a module constant: %s" % show(prefix_term))
-    prefix = folder.need_module_const(prefix_term[1], prefix_term[2])
-    # combined = a + b + c + d of module-level lists
-    parts = M.concat_parts(combined)
-    groups = []
-    for part in parts:
-        if part[0] != "global":
-            raise AnalysisError("pattern list component is not a module constant: %s" % show(part))
-        try:
-            val = folder._module_name(p.modules[part[1]], part[2])
-        except Unfoldable as e:
-            raise AnalysisError("pattern list %s does not fold: %s" % (part[2], e))
-        if not isinstance(val, list):
-            raise AnalysisError("pattern list %s is not a list" % part[2])
-        for g in val:
-            if not isinstance(g, list):
-                raise AnalysisError("pattern group in %s is not a list" % part[2])
-            grp = []
-            for t in g:
-                if not (isinstance(t, tuple) and len(t) == 2 and isinstance(t[0], str) and (t[1] is None or isinstance(t[1], int))):
-                    raise AnalysisError("malformed pattern entry %r in %s" % (t, part[2]))
-                grp.append(Pat(t[0], t[1], len(groups), len(grp), part[2]))
-            groups.append(grp)
-    for g in groups:
-        for pat in g:
+        raise AnalysisError("pattern table has an unexpected shape; cannot enumerate patterns")
+    flags = {t[0].flags for g in table for t in g}
+    rep.ob(cl + ".table-flags", f.name, flags == {0}, "patterns are compiled without flags (%s)" % sorted(flags), loc)
+    texts = [t[0].pattern for g in table for t in g]
+    prefix = None
+    try:
+        cand = folder.module_const(SIR, "_ALLOWED_REGEX_PREFIX")
+        if isinstance(cand, str) and all(x.startswith(cand) for x in texts):
+            prefix = cand
+    except Unfoldable:
+        pass
+    if prefix is None:
+        common = os.path.commonprefix(texts)
+        for n in range(len(common), -1, -1):
             try:
-                pat.tree, pat.info = rx.parse(prefix + pat.text, 0)
+                tree, info = rx.parse(common[:n], 0)
+            except RxError:
+                continue
+            if _zero_width(tree) and info["groups"] == 0:
+                prefix = common[:n]
+                break
+    groups = []
+    for gi, g in enumerate(table):
+        grp = []
+        for pi, (r, idx) in enumerate(g):
+            pat = Pat(r.pattern[len(prefix):], idx, gi, pi, "table")
+            try:
+                pat.tree, pat.info = rx.parse(r.pattern, r.flags)
             except RxError as e:
                 pat.error = str(e)
+            grp.append(pat)
+        groups.append(grp)
     return prefix, groups
 
 
